@@ -71,7 +71,7 @@ PROPS = {
         ],
         comps={"outcome", "state"},
         assumptions=_C06_ASSUME,
-        level="proof (partial) + differential replicas",
+        level="proof",  # the schema's enum; that the proof part is PARTIAL and the replica run decides the code is said in notes, text and DESIGN
         rule=("THE PROOF PART IS PARTIAL; THE REPLICA RUN IS THE DECISION PROCEDURE FOR THE CODE. one evaluation = one height of one generated "
               "block history executed by four replicas of the real application: A continuous; B destroyed and re-created over the same "
               "database (app.NewCanto + load latest version) at EVERY block boundary; C answering every Canto gRPC query, SDK and EVM "
